@@ -593,6 +593,43 @@ def run(prog, tier, res):
             txt = str(d0)
             c = as_cmp(d0, True) if d0[0] in ("bin", "un", "call") else None
             tr = truth_of(rel, vals)
+            # the same three tests as one slice pattern `[(0, e), .., (s, 256)]` on `ranges[..]`: length, element 0 from the
+            # front, element 1 from the back (= the last)
+            def vec_slice(x_):
+                x_ = strip(x_)
+                while x_[0] in ("ref", "deref"):
+                    x_ = strip(x_[1])
+                return x_[0] == "call" and short(x_[1]) == "Index::index" and len(x_[2]) == 2 and strip(x_[2][1])[0] == "aggr" \
+                    and strip(x_[2][1])[1].endswith("RangeFull::RangeFull") and "Vec" in str(x_[2][0])[:400]
+            if d0[0] == "field" and rel == "in" and strip(d0[1])[0] == "cindex" and vec_slice(strip(d0[1])[1]):
+                ci_ = strip(d0[1])
+                if d0[2] == 0 and ci_[2] == 0 and not ci_[3]:
+                    first_ok = sorted(vals) == [0]
+                    continue
+                if d0[2] == 1 and ci_[2] == 1 and ci_[3]:
+                    last_ok = sorted(vals) == [WIRES]
+                    continue
+            if c is not None and tr is not None and any(x[0] == "len" and vec_slice(x[1]) for x in walk(d0) if isinstance(x, tuple) and len(x) == 2) \
+                    and not any(x[0] == "var" for x in walk(d0)):
+                op, a, b = c
+                def val2(x, n):
+                    x = strip(x)
+                    if x[0] == "const":
+                        return x[1]
+                    if x[0] == "len" and vec_slice(x[1]):
+                        return n
+                    return None
+                tbl = []
+                for n in range(0, 7):
+                    va, vb = val2(a, n), val2(b, n)
+                    if va is None or vb is None:
+                        tbl = None
+                        break
+                    r = {"Eq": va == vb, "Ne": va != vb, "Lt": va < vb, "Le": va <= vb, "Gt": va > vb, "Ge": va >= vb}[op]
+                    tbl.append(r == tr)
+                if tbl is not None:
+                    len_ok = tbl if len_ok is None else [x and y for x, y in zip(len_ok, tbl)]
+                    continue
             if c is not None and tr is not None and "Vec::<T, A>::len" in txt and not any(x[0] == "var" for x in walk(d0)):
                 # a comparison of the number of blocks with a constant: evaluate it for 0..6 blocks
                 op, a, b = c
@@ -677,10 +714,17 @@ def run(prog, tier, res):
                             y = strip(y[1])
                         if y[0] == "downcast" and strip(y[1])[0] == "call":
                             return short(strip(y[1])[1]), strip(y[1])
+                        # a binding of the slice pattern `[(0, e), .., (s, 256)]` on `ranges[..]`: element 0 from the front is
+                        # first(), element 1 from the back is last(), both read before the list is modified
+                        if y[0] == "cindex" and len(y) >= 4 and vec_slice(y[1]):
+                            if y[2] == 0 and not y[3]:
+                                return "<impl [T]>::first", y
+                            if y[2] == 1 and y[3]:
+                                return "<impl [T]>::last", y
                     return None, None
                 s0, y0 = src(a0, 0)
                 s1, y1 = src(a1, 1)
-                zero = y1 is not None and len(y1[2]) == 2 and strip(y1[2][1]) == ("const", 0, "usize")
+                zero = y1 is not None and y1[0] == "call" and len(y1[2]) == 2 and strip(y1[2][1]) == ("const", 0, "usize")
                 order = bc.dominates(pbb, srs[0][0]) and pbb != srs[0][0]      # pop() first: swap_remove(0) moves the last block to the front
                 sr0 = strip(anc.terms.operand(srs[0][1]["args"][1])) == ("const", 0, "usize")
                 mk = order and sr0 and ((s0 == "Vec::<T, A>::pop" and s1 == "Vec::<T, A>::swap_remove" and zero) or
